@@ -249,21 +249,37 @@ def scenario_fit(rng, tmp, i):
 
 
 def scenario_drt(rng, tmp, i):
-    from pyimpspec import generate_mock_data, calculate_drt
+    """the `drt` command against calculate_drt with the same settings: the three deterministic methods in turn, each with the options
+    that belong to it away from their defaults, optionally with the table of peaks (--threshold)"""
+    from pyimpspec import generate_mock_data, calculate_drt, parse_cdc
     seed = rng.randint(1, 50)
-    mode = rng.choice(["real", "imaginary"])
-    lam = rng.choice([1e-3, 1e-2])
-    argv = ["drt", "<CIRCUIT_1:noise=0.1,seed=%d>" % seed, "--method", "tr-nnls", "--mode", mode, "--lambda-value", repr(lam), "--output-format", "csv", "--num-procs", "1"]
+    which = ("tr-nnls", "lm", "mrq-fit")[i % 3]
+    if which == "tr-nnls":
+        mode, lam = rng.choice(["real", "imaginary"]), rng.choice([1e-3, 1e-2])
+        opts, kw = ["--mode", mode, "--lambda-value", repr(lam)], dict(mode=mode, lambda_value=lam)
+    elif which == "lm":
+        mo, mm = rng.choice([0, 3, 5]), rng.choice(["matrix_rank", "pseudo_chisqr"])
+        opts, kw = ["--model-order", str(mo), "--model-order-method", mm], dict(model_order=mo, model_order_method=mm)
+    else:
+        cdc_, gw, npd = "R{R=100}(R{R=200}C{C=8e-7})(R{R=500}Q{Y=4e-4,n=0.6})", rng.choice([0.1, 0.25]), rng.choice([20, 50])
+        opts = ["--circuit", cdc_, "--gaussian-width", repr(gw), "--num-per-decade", str(npd), "--max-nfev", "100"]
+        kw = dict(circuit=parse_cdc(cdc_), gaussian_width=gw, num_per_decade=npd, max_nfev=100)
+    thr = rng.choice([None, 0.0, 0.3])
+    argv = (["drt", "<CIRCUIT_1:noise=0.1,seed=%d>" % seed, "--method", which] + opts + ["--output-format", "csv", "--num-procs", "1"]
+            + (["--threshold", repr(thr)] if thr is not None else []))
     out, err = run_cli(argv)
     desc = dict(command=argv)
     if err:
         return desc, "CLI raised " + err
     data = generate_mock_data("CIRCUIT_1", noise=0.1, seed=seed)[0]
-    drt = calculate_drt(data, method="tr-nnls", mode=mode, lambda_value=lam, num_procs=1)
+    drt = calculate_drt(data, method=which, num_procs=1, **kw)
     frs = fragments(out)
-    stats = drt.to_statistics_dataframe().to_csv(index=False).strip()
-    if not any(stats == fr.strip() or compare_df(fr, drt.to_statistics_dataframe(), "csv") is None for fr in frs):
+    if not any(compare_df(fr, drt.to_statistics_dataframe(), "csv") is None for fr in frs):
         return desc, "statistics table of calculate_drt not found in the CLI output"
+    if thr is not None:
+        peaks = drt.to_peaks_dataframe(threshold=thr)
+        if len(peaks) and not any(compare_df(fr, peaks, "csv") is None for fr in frs):
+            return desc, "table of peaks (threshold %r) of calculate_drt not found in the CLI output" % thr
     return desc, None
 
 
@@ -341,7 +357,7 @@ def run(rep, tier, seed, tr_errors):
     cwd = os.getcwd()
     try:
         os.chdir(tmp)
-        plan = [(scenario_parse, 10 if tier == "quick" else 120), (scenario_circuit, 5 if tier == "quick" else 60), (scenario_fit, 2 if tier == "quick" else 16), (scenario_drt, 2 if tier == "quick" else 12)]
+        plan = [(scenario_parse, 10 if tier == "quick" else 120), (scenario_circuit, 5 if tier == "quick" else 60), (scenario_fit, 2 if tier == "quick" else 16), (scenario_drt, 3 if tier == "quick" else 18)]
         for fn, n in plan:
             for i in range(n):
                 try:
